@@ -178,6 +178,38 @@ def foliated(E, k, w, a):
     check_adjacent(E, f, r, p, "C05:foliated")
 
 
+def semantic(E, w):
+    """the result denotes the same morphism: the real tensor.Functor with
+    generic symbolic box arrays gives the same tensor before and after the
+    interchange (z3 decides the polynomial identity)"""
+    import numpy as np
+    from vf import sym
+    from vf.props.c09 import gen_rigid, Interp, prod
+    from discopy import tensor, rigid
+    from discopy.rewriting import InterchangerError
+    sym.begin(E)
+    boxes = []
+    d = gen_rigid(E, 2, w, boxes, allow=('box',))
+    left = E.choice('left', [False, True])
+    try:
+        r = d.interchange(0, 1, left=left)
+    except InterchangerError:
+        E.cover("refused")
+        return
+    dims = {'x': 2, 'y': 2}
+    I = Interp(dims, {})
+    arrays = {}
+    for b in boxes:
+        shape = I.ty(b.dom) + I.ty(b.cod)
+        arrays[b.name] = sym.carr(E, b.name, shape)
+    F = tensor.Functor(ob={rigid.Ty('x'): 2, rigid.Ty('y'): 2},
+                       ar=lambda f: arrays[f.name])
+    sym.prove_equal(E, F(r).array, F(d).array,
+                    "C05:semantic:interchange-changes-the-denotation",
+                    info="%s -> %s" % (d, r))
+    E.cover("moved")
+
+
 def harnesses(tier):
     q = tier == "quick"
     T = 600 if q else 900
@@ -203,6 +235,11 @@ def harnesses(tier):
                 "<= 2, 2 labels): adjacent interchange of slices, i.e. of "
                 "boxes that are composite diagrams" % (3 if q else 4),
                 timeout_s=T))
+    hs.append(H("semantic", semantic, dict(w=4), FUNCS
+                + ["discopy.tensor.Functor.__call__"],
+                covers=["refused", "moved"], engine="SYM (z3 QF_NRA)",
+                bounds="two boxes of arity <= 2 at every offset, width <= 4, "
+                "dimension 2, generic symbolic box arrays", timeout_s=T))
     k, w, a, L, steps = (3, 2, 1, 2, 2) if q else (3, 2, 2, 2, 2)
     hs.append(H("seqA", seqA, dict(k=k, w=w, a=a, L=L, steps=steps), FUNCS,
                 covers=["refused", "moved"], modeb=True,
